@@ -218,19 +218,22 @@ fn main() {
 
     let mut ext_left: usize = 0; // `#!extend N` seen: plain pushes still to be buffered
     let mut ext_buf: Vec<run::ExtItem> = Vec::new();
+    let mut ext_bomb = false;
 
     for (i, raw) in input.lines().enumerate() {
         let lineno = i + 1;
         let line = raw.trim_end();
-        if let Some(n) = line.strip_prefix("#!extend ") {
+        if let Some(n) = line.strip_prefix("#!extendp ").or_else(|| line.strip_prefix("#!extend ")) {
+            // `#!extendp`: the iterator panics once its elements are used up (the panic is caught)
             // harness directive (a comment for every other reader of the history): the next N
             // plain `push` lines are executed as the elements of one `Extend::extend` call
             if let Some(h) = hist.as_mut() {
                 if !ext_buf.is_empty() {
-                    h.run_extend(std::mem::take(&mut ext_buf));
+                    h.run_extend(std::mem::take(&mut ext_buf), ext_bomb);
                 }
             }
             ext_left = n.trim().parse::<usize>().unwrap_or(0);
+            ext_bomb = line.starts_with("#!extendp ");
             continue;
         }
         if line.is_empty() || line.starts_with('#') {
@@ -262,7 +265,7 @@ fn main() {
             ext_left = 0;
             if !ext_buf.is_empty() {
                 if let Some(h) = hist.as_mut() {
-                    h.run_extend(std::mem::take(&mut ext_buf));
+                    h.run_extend(std::mem::take(&mut ext_buf), ext_bomb);
                 }
                 ext_buf.clear();
             }
@@ -335,7 +338,7 @@ fn main() {
                 ext_buf.push(run::ExtItem { k, line: line.to_string(), cid: *cid, script: script.clone() });
                 ext_left -= 1;
                 if ext_left == 0 {
-                    h.run_extend(std::mem::take(&mut ext_buf));
+                    h.run_extend(std::mem::take(&mut ext_buf), ext_bomb);
                 }
                 continue;
             }
